@@ -171,6 +171,7 @@ class Module:
     classes: list[Cls] = field(default_factory=list)
     enums: list[Enum_] = field(default_factory=list)
     typevars: list[str] = field(default_factory=list)
+    typevar_decls: dict | None = None
     order: list | None = None   # explicit order of top-level declarations (list of ('f'|'c'|'e', index))
 
 
@@ -365,7 +366,7 @@ def module_src(m: Module, style: str) -> str:
     for imp in m.imports:
         out += imp + "\n"
     for tv in m.typevars:
-        out += f'{tv} = TypeVar("{tv}")\n'
+        out += (m.typevar_decls or {}).get(tv, f'{tv} = TypeVar("{tv}")') + "\n"
     order = m.order or ([("e", i) for i in range(len(m.enums))] + [("c", i) for i in range(len(m.classes))]
                         + [("f", i) for i in range(len(m.funcs))])
     for k, i in order:
@@ -592,7 +593,8 @@ def gen_inferred_body(rng: random.Random, depth: int = 2):
     return "\n".join(lines), returned
 
 
-def gen_func(rng, names: Names, refs, tvs, *, private=False, deco="plain", docs=True, keywords=False, infer_prob=0.2) -> Func:
+def gen_func(rng, names: Names, refs, tvs, *, private=False, deco="plain", docs=True, keywords=False, infer_prob=0.2,
+             doc_types=False) -> Func:
     f = Func(names.fresh("func", private), gen_params(rng, names, refs, tvs, keywords=keywords), deco=deco)
     r = rng.random()
     if deco == "prop":
@@ -617,10 +619,26 @@ def gen_func(rng, names: Names, refs, tvs, *, private=False, deco="plain", docs=
         f.doc = f"Doc of {f.name}. Line one."
         if rng.random() < 0.4:
             f.doc += f"\n\nSecond paragraph of {f.name}."
+    if doc_types:
+        for p in f.params:
+            if p.kind in ("varpos", "varkw"):
+                continue
+            r = rng.random()
+            if r < 0.5:
+                p.doc = f"About {p.name}."
+            if r < 0.35:
+                # same as the hint, different from the hint, or a docstring type without any hint
+                if p.ann is not None and p.ann.kind in BASE_ANN and rng.random() < 0.5:
+                    p.doc_type = p.ann.kind
+                else:
+                    p.doc_type = rng.choice(BASE_ANN)
+        if deco != "prop" and rng.random() < 0.4 and (f.ret is not None and f.ret.kind != "tuple" or (f.ret is None and not f.ret_none and f.inferred is None)):
+            t = f.ret.kind if (f.ret is not None and f.ret.kind in BASE_ANN and rng.random() < 0.5) else rng.choice(BASE_ANN)
+            f.result_docs = [("", t, f"Result of {f.name}.")]
     return f
 
 
-def gen_class(rng, names: Names, refs, tvs, *, private=False, depth=1, docs=True, keywords=False) -> Cls:
+def gen_class(rng, names: Names, refs, tvs, *, private=False, depth=1, docs=True, keywords=False, doc_types=False) -> Cls:
     c = Cls(names.fresh("cls", private))
     for _ in range(rng.randrange(0, 4)):
         an = names.fresh("attr", rng.random() < 0.25)
@@ -654,16 +672,17 @@ def gen_class(rng, names: Names, refs, tvs, *, private=False, depth=1, docs=True
         c.init = init
     for _ in range(rng.randrange(0, 4)):
         deco = rng.choice(["plain", "plain", "plain", "static", "classm", "prop"])
-        c.methods.append(gen_func(rng, names, refs, tvs, private=rng.random() < 0.2, deco=deco, docs=docs, keywords=keywords))
+        c.methods.append(gen_func(rng, names, refs, tvs, private=rng.random() < 0.2, deco=deco, docs=docs, keywords=keywords,
+                                  doc_types=doc_types))
     if depth > 0 and rng.random() < 0.3:
-        c.inner.append(gen_class(rng, names, refs, tvs, private=rng.random() < 0.25, depth=depth - 1, docs=docs))
+        c.inner.append(gen_class(rng, names, refs, tvs, private=rng.random() < 0.25, depth=depth - 1, docs=docs, doc_types=doc_types))
     if docs and rng.random() < 0.6:
         c.doc = f"Doc of class {c.name}."
     return c
 
 
 def gen_package(rng: random.Random, idx: int, *, style="plaintext", nmods=3, reexports=True, subpackage=True, keywords=False,
-                docs=True, cross_refs=True, private_bases=True) -> Package:
+                docs=True, cross_refs=True, private_bases=True, doc_types=False, generics=True) -> Package:
     tag = f"q{idx}"
     names = Names(rng, tag)
     root = f"pkg{tag}"
@@ -675,6 +694,7 @@ def gen_package(rng: random.Random, idx: int, *, style="plaintext", nmods=3, ree
         dirs.append((f"{root}/{sub}", f"{root}.{sub}"))
         inits.append(Init(f"{root}/{sub}/__init__.py", f"{root}.{sub}"))
     all_public_classes: list[Ann] = []
+    shared_tv = rng.random() < 0.5
     for mi in range(nmods):
         d, dd = dirs[mi % len(dirs)]
         private_mod = rng.random() < 0.3
@@ -682,7 +702,8 @@ def gen_package(rng: random.Random, idx: int, *, style="plaintext", nmods=3, ree
         m = Module(f"{d}/{mname}.py", f"{dd}.{mname}")
         if docs and rng.random() < 0.5:
             m.doc = f"Module doc of {mname}."
-        tv = names.fresh("tv")
+        # type variables: the same name in every module of the package on half of the packages
+        tv = f"T{tag}" if shared_tv else names.fresh("tv")
         m.typevars = [tv]
         refs_here: list[Ann] = []
         if cross_refs and all_public_classes and rng.random() < 0.6:
@@ -693,14 +714,40 @@ def gen_package(rng: random.Random, idx: int, *, style="plaintext", nmods=3, ree
         imported_here = list(refs_here)
         # classes first so that functions can refer to them
         for _ in range(rng.randrange(1, 4)):
-            c = gen_class(rng, names, refs_here if cross_refs else [], [tv], private=rng.random() < 0.2, docs=docs, keywords=keywords)
+            c = gen_class(rng, names, refs_here if cross_refs else [], [tv], private=rng.random() < 0.2, docs=docs, keywords=keywords,
+                          doc_types=doc_types)
             m.classes.append(c)
             if not c.name.startswith("_"):
                 refs_here.append(Ann("ref", name=c.name, module=m.dotted))
+        if generics and rng.random() < 0.5:
+            gtv = f"G{names.num()}{tag}"
+            decl = rng.choice([f'{gtv} = TypeVar("{gtv}")', f'{gtv} = TypeVar("{gtv}", bound=int)',
+                               f'{gtv} = TypeVar("{gtv}", bound=tuple[int, str])', f'{gtv} = TypeVar("{gtv}", set[int], list[int])',
+                               f'{gtv} = TypeVar("{gtv}", covariant=True)'])
+            m.typevars.append(gtv)
+            m.typevar_decls = {**(m.typevar_decls or {}), gtv: decl}
+            gc = Cls(names.fresh("cls"), bases=[f"Generic[{gtv}]"], tparams=[gtv])
+            kind = rng.randrange(4)
+            if kind == 0:
+                gc.attrs.append(Attr(names.fresh("attr"), Ann("int"), "1"))
+            elif kind == 1:
+                gc.methods.append(Func(names.fresh("func"), [Param(names.fresh("param"), "pos", Ann("typevar", name=gtv))],
+                                       ret=Ann("typevar", name=gtv)))
+            elif kind == 2:
+                gc.methods.append(Func(names.fresh("func"), [], ret=Ann("int"), deco="prop"))
+            if docs and rng.random() < 0.5:
+                gc.doc = f"Doc of class {gc.name}."
+            m.classes.insert(rng.randrange(0, len(m.classes) + 1), gc)
+        # a non-generic class with a method that uses the module's (possibly package-wide) type variable
+        if generics and m.classes and rng.random() < 0.5:
+            host = rng.choice([c for c in m.classes if not c.tparams] or [m.classes[0]])
+            if not host.tparams:
+                host.methods.append(Func(names.fresh("func"), [Param(names.fresh("param"), "pos", Ann("typevar", name=tv))],
+                                         ret=Ann("typevar", name=tv)))
         # subclassing inside the module: public and private bases
         if private_bases and len(m.classes) >= 2 and rng.random() < 0.7:
-            base = m.classes[0]
-            for sub in m.classes[1:]:
+            base = next((c for c in m.classes if not c.tparams), m.classes[0])
+            for sub in [c for c in m.classes if c is not base and not c.tparams and m.classes.index(c) > m.classes.index(base)]:
                 if rng.random() < 0.5 and not sub.bases:
                     sub.bases = [base.name]
                     sub.base_refs = [(base.name, m.dotted, base.name.startswith("_"))]
@@ -709,7 +756,7 @@ def gen_package(rng: random.Random, idx: int, *, style="plaintext", nmods=3, ree
                                  doc="Enum doc." if docs and rng.random() < 0.5 else ""))
         for _ in range(rng.randrange(1, 5)):
             m.funcs.append(gen_func(rng, names, refs_here if cross_refs else [], [tv], private=rng.random() < 0.2, docs=docs,
-                                    keywords=keywords))
+                                    keywords=keywords, doc_types=doc_types))
         mods.append(m)
         if not private_mod:
             all_public_classes += [r for r in refs_here if r not in imported_here]
